@@ -8,11 +8,13 @@ VERDICT = 'C09_verdict'
 PROPS_FILE = 'theories/Props/C09.v'
 THEOREM = 'C09_lifecycle'
 RULE = ('C08 cases plus start / kill / state / promise-value calls between frames and inside '
-        'coroutine bodies (a body may target itself), kill immediately followed by start '
-        'weighted up, 4 % of the targets are non-generators; at the end the harness drops '
-        'all its references and reports which generators are still alive (weakref); '
-        'non-trivial = a successful kill followed later by a successful start of the same '
-        'generator, or an in-body kill')
+        'coroutine bodies (a body may target itself, also kill itself and return), kill '
+        'immediately followed by start weighted up, 4 % of the targets are non-generators; '
+        'coroutines are long-lived (restartable at any time), medium (restartable while they '
+        'cannot have finished, so that restart + return + promise value occur) or short; at '
+        'the end the harness drops all its references and reports which generators are still '
+        'alive (weakref); non-trivial = a successful kill followed later by a successful '
+        'start of the same generator, or an in-body kill')
 TRUSTED = [
     'Coq 8.16.1 kernel + vm_compute (evaluation of C09_verdict on the observed traces)',
     'hand-written model Coro/Model.v tied to /repo by this correspondence run '
@@ -28,7 +30,10 @@ MALFORMED_OK = True
 ASSUMPTIONS = ['dt >= 0 and all times exactly representable',
                'a generator that has returned is not started again (its resumption runs no '
                'code, so it cannot be observed)',
-               'coroutine bodies themselves do not raise']
+               'coroutine bodies themselves do not raise',
+               'not covered: a coroutine killed before its turn in the very frame in which its '
+               'wait ran out, restarted in that frame by a coroutine whose wait ran out with the '
+               'same deadline, and then not run in that frame (heap tie that the log cannot show)']
 
 
 def gen(rng, tier):
